@@ -4,6 +4,20 @@ import json, os, re, shutil, subprocess, sys, time
 from concurrent.futures import ThreadPoolExecutor
 from fractions import Fraction
 
+
+try:
+    import ctypes
+    _LIBC = ctypes.CDLL('libc.so.6', use_errno=True)
+except Exception:
+    _LIBC = None
+
+
+def child_setup():
+    """children (cargo, harness, TLC, Apalache) die with this process, also when it is killed (PR_SET_PDEATHSIG = 1)"""
+    if _LIBC is not None:
+        _LIBC.prctl(1, 9)
+
+
 VERIF = os.path.dirname(os.path.dirname(os.path.abspath(__file__)))
 SPEC = os.path.join(VERIF, 'spec')
 HARNESS_DIR = os.path.join(VERIF, 'harness')
@@ -23,7 +37,7 @@ def log(*a):
 def build_harness():
     env = dict(os.environ, CARGO_NET_OFFLINE='true')
     t0 = time.time()
-    r = subprocess.run(['cargo', 'build', '--profile', 'verif', '--offline'], cwd=HARNESS_DIR, env=env,
+    r = subprocess.run(['cargo', 'build', '--profile', 'verif', '--offline'], cwd=HARNESS_DIR, env=env, preexec_fn=child_setup,
                        stdout=subprocess.PIPE, stderr=subprocess.STDOUT, text=True)
     if r.returncode != 0:
         log(r.stdout[-4000:])
@@ -44,7 +58,7 @@ def run_harness(scen_path, trace_path, progress_path, timeout=1800):
             f.writelines(scen_lines[done:])
         tp = trace_path + '.part%d' % part
         try:
-            r = subprocess.run([HARNESS_BIN, 'run', sub, tp, '--progress', progress_path],
+            r = subprocess.run([HARNESS_BIN, 'run', sub, tp, '--progress', progress_path], preexec_fn=child_setup,
                                stdout=subprocess.DEVNULL, stderr=subprocess.PIPE, timeout=timeout)
             rc = r.returncode
             err = r.stderr.decode(errors='replace')
@@ -140,7 +154,7 @@ def tlc_trace(shard_path, nevents, workdir, module='Trace', cfg=None, timeout=18
            os.path.join(SPEC, module + '.tla')]
     t0 = time.time()
     try:
-        r = subprocess.run(cmd, env=env, cwd=md, stdout=subprocess.PIPE, stderr=subprocess.STDOUT, text=True,
+        r = subprocess.run(cmd, env=env, cwd=md, stdout=subprocess.PIPE, stderr=subprocess.STDOUT, text=True, preexec_fn=child_setup,
                            timeout=timeout)
     except subprocess.TimeoutExpired:
         raise ToolError('TLC timed out on ' + shard_path)
